@@ -127,6 +127,35 @@ func checkC20(c *Ctx) {
 					rn = call
 				case "google.golang.org/protobuf/proto.Marshal":
 					ms = call
+				case "(google.golang.org/protobuf/proto.MarshalOptions).Marshal":
+					ms = call
+					// the options must keep the check the loader makes too: a message that lacks required fields is
+					// refused by Unmarshal, so it must be refused here (AllowPartial left false)
+					partial := ""
+					scan := func(g *ssa.Function) {
+						if g == nil {
+							return
+						}
+						eachInstr(g, func(in2 ssa.Instruction) {
+							st, ok := in2.(*ssa.Store)
+							if !ok {
+								return
+							}
+							if o, fld, ok := fieldOwner(st.Addr); ok && o == "proto.MarshalOptions" && fld == "AllowPartial" {
+								if cv, isC := constOf(st.Val); !isC || cv.String() != "false" {
+									partial = fnName(g)
+								}
+							}
+						})
+					}
+					for _, g := range fns {
+						scan(g)
+					}
+					if f.Package() != nil {
+						scan(f.Package().Func("init"))
+					}
+					r.Check(partial == "", "C20.2", "saveClientConf: marshals with the required-field check the loader applies", call.Pos(), fnName(f), "MarshalOptions without AllowPartial",
+						"the configuration is marshalled with AllowPartial (set in "+partial+"): a ClientConf that lacks required fields is written and renamed into place although the loader's Unmarshal refuses it - the stored file is unparseable and the failed store is reported as a success")
 				}
 			}
 		})
@@ -675,7 +704,7 @@ func dependsOnNoPhi(v, ev ssa.Value) bool {
 // marshalsLiveConfig: the message handed to proto.Marshal is the in-memory configuration - `a.config` itself, or a
 // parameter of the save function to which every caller passes its `.config`.
 func marshalsLiveConfig(f *ssa.Function, ms *ssa.Call) bool {
-	arg := ms.Call.Args[0]
+	arg := ms.Call.Args[len(ms.Call.Args)-1]
 	if mi, ok := arg.(*ssa.MakeInterface); ok {
 		arg = mi.X
 	}
